@@ -24,6 +24,7 @@ pub fn run_c02(ctx: &Ctx) -> i32 {
         cfg.max_layers = 12;
         cfg.cel_density = 6;
         cfg.extreme_cels = true;
+        cfg.big = true;
         cfg.extremes = false;
         if i % 7 == 0 {
             cfg.max_w = 40;
@@ -151,6 +152,7 @@ fn c06_model(rng: &mut Rng, i: u64) -> (Sprite, PaletteProgram, &'static str) {
             cfg.max_layers = 5;
             cfg.max_frames = 6;
             cfg.extreme_cels = true;
+            cfg.big = true;
             let (sp, pp) = gen::gen_sprite(rng, &cfg);
             (sp, pp, "random")
         }
